@@ -7,11 +7,14 @@ seqspec = {
   "perm":  [ints]                                            insertion order for "abs_ins" (any list; indices are taken modulo)
   "pad":   int | None,                                       pad() afterwards
   "extra_abs": [["on", ch, pitch, vel, tick] | ["off", ch, pitch, tick], ...]   ill-formed decoration (not part of spec_events)
+"late_notes": [indices into notes]                        these notes are added with add_absolute_message after construction,
+                                                             padding and the post step (only notes whose key occurs once)
   "shift": int                                               every tick of notes and meta events is moved by this many ticks (a long
                                                              leading rest: large absolute tick values)
   "off_vel": [int | None, ...]                              release velocities of the note-offs (cyclic)
   "double": None | "self" | "fresh"                         the sequence concatenated with itself (shared message objects)
-  "post":  None | "normalise" | "refresh" | "read_abs" | "read_rel"     leaves the object in a different freshness state
+  "post":  None | "normalise" | "refresh" | "read_abs" | "read_rel" | "getters" | "copy"   leaves the object in a different
+           freshness state / after read-only use / replaced by its copy
 }
 """
 from pbt.sut import Message, MT, Sequence, RelativeSequence, AbsoluteSequence, Key
@@ -99,6 +102,23 @@ def _tie_fix(order, msgs):
 
 
 def sequence(spec):
+    late = sorted(set(spec.get("late_notes") or []))
+    if late:
+        # a piece built in two steps: the notes with these indices arrive through add_absolute_message after everything else
+        # (construction, padding, the 'post' step) has happened
+        s = sequence(dict(spec, notes=[n for i, n in enumerate(spec["notes"]) if i not in late], late_notes=None, double=None))
+        for i in late:
+            ch, p, on, off, v = spec["notes"][i]
+            sh = spec.get("shift", 0)
+            s.add_absolute_message(Message(message_type=MT.NOTE_ON, channel=ch, note=p, velocity=v, time=on + sh))
+            s.add_absolute_message(Message(message_type=MT.NOTE_OFF, channel=ch, note=p, time=off + sh))
+        if spec.get("double") == "self":
+            s.concatenate([s])
+        elif spec.get("double") == "fresh":
+            d = Sequence()
+            d.concatenate([s, s])
+            s = d
+        return s
     msgs = abs_messages(spec)
     route = spec.get("route", "abs_sorted")
     if route == "rel":
@@ -138,6 +158,17 @@ def sequence(spec):
         _ = s.abs
     elif post == "read_rel":
         _ = s.rel
+    elif post == "getters":
+        # read-only use of the object before the operation under test (several getters sort or cache internally)
+        for f in (s.get_message_pairings, s.get_sequence_duration, s.is_empty, s.get_sequence_duration_relation,
+                  lambda: s.equals(s), lambda: s.get_message_times_of_type([MT.TIME_SIGNATURE, MT.KEY_SIGNATURE]),
+                  s.to_midi_track, s.get_interleaved_message_pairings):
+            try:
+                f()
+            except Exception:
+                pass
+    elif post == "copy":
+        s = s.copy()
     return s
 
 
